@@ -87,6 +87,16 @@ def bvStep (fresh : Nat → α → α) (n : Nat) (st : List α × Nat) :
   | .clonePanic j =>
     let r := refClonePanic (fun i => fresh (st.2 + i)) j st.1
     ((st.1, st.2 + r.1.length), if r.2 then .panicked r.1 else .cloned r.1)
+  -- `a.clone_from(&b)` is documented as equivalent to `a = b.clone()`: the target becomes a clone of the
+  -- source, its old content is dropped.  The second vector `t` holds the pushes it accepted.
+  | .cloneFrom vs =>
+    let t := bvAccepted n vs
+    ((mapFrom (fun i => fresh (st.2 + vs.length + i)) 0 t, st.2 + vs.length + t.length),
+      .clonedFrom (vs.drop n) st.1 t)
+  | .cloneInto vs =>
+    let t := bvAccepted n vs
+    ((mapFrom (fun i => fresh (st.2 + vs.length + i)) 0 st.1, st.2 + vs.length + st.1.length),
+      .clonedFrom (vs.drop n) t st.1)
 
 def bvRun (fresh : Nat → α → α) (n : Nat) :
     List α × Nat → List (ArrayBuilder.Op α) → (List α × Nat) × List (ArrayBuilder.Obs α)
@@ -96,11 +106,16 @@ def bvRun (fresh : Nat → α → α) (n : Nat) :
     let rest := bvRun fresh n res.1 r
     (rest.1, res.2 :: rest.2)
 
-/-- the values pushed by a history -/
-def pushes : List (ArrayBuilder.Op α) → List α
-  | [] => []
-  | .push v :: r => v :: pushes r
-  | _ :: r => pushes r
+/-- the values pushed into the builder a history ends with, starting from the pushes `acc`: a
+    `clone_from` from a second builder restarts with the values pushed into THAT builder -/
+def pushesFrom : List α → List (ArrayBuilder.Op α) → List α
+  | acc, [] => acc
+  | acc, .push v :: r => pushesFrom (acc ++ [v]) r
+  | _, .cloneFrom vs :: r => pushesFrom vs r
+  | acc, _ :: r => pushesFrom acc r
+
+/-- the values pushed by a history (into the builder it ends with) -/
+def pushes (ops : List (ArrayBuilder.Op α)) : List α := pushesFrom [] ops
 
 /-- one consumer operation on the deque -/
 def dqStep (fresh : Nat → α → α) (st : List α × Nat) :
